@@ -20,7 +20,7 @@ TECHNIQUE = (
 RULE = (
     "case = 1-3 FASTA files with 1-40 (or 450-1300 small) records '>name description', sequences of 0-200 residues "
     "wrapped at a drawn width, with/without final newline, enzyme in {[KR], K, [FWY], [KR](?!P)}, reverse or shuffle, "
-    "concatenate on/off, numpy global seed, optionally repeated accessions or input entries that already carry the decoy prefix; every case is preceded by a call with the opposite mode (history). "
+    "concatenate on/off, numpy global seed, optionally repeated accessions or input entries that already carry the decoy prefix; every case is preceded by a call with the opposite mode (history), half of them writing to the very output path. "
     "Non-trivial: >=1 protein with >=2 enzymatic peptides of interior length >=2. Distinct = distinct canonical JSON."
 )
 ASSUMPTIONS = [
@@ -130,8 +130,9 @@ def check(case):
         real0 = pre.read_text()
         pre.write_text(">pre1\nMAAAGGGPPPKAGPMAGPMRGGAPMAPG\n>pre2\nAGPMAGK\n")
         np.random.seed(case["np_seed"] ^ 0x5A5A)
-        guarded(mf.make_decoys, str(pre), str(tmp / "pre_out.fasta"), enzyme=case["enzyme"], reverse=not case["reverse"],
-                concatenate=not case["concatenate"], sig="make_decoys")
+        # ... and it wrote to the same output path (a regenerated decoy file replaces the earlier one)
+        guarded(mf.make_decoys, str(pre), str(out if case["np_seed"] % 2 == 0 else tmp / "pre_out.fasta"), enzyme=case["enzyme"],
+                reverse=not case["reverse"], concatenate=not case["concatenate"], sig="make_decoys")
         pre.write_text(real0)
         np.random.seed(case["np_seed"])
         ret = guarded(mf.make_decoys, paths if len(paths) > 1 else paths[0], str(out), decoy_prefix=case["prefix"],
@@ -184,6 +185,8 @@ def check(case):
         classes.append("multi-file")
     if any(s == "" for _, s in targets):
         classes.append("empty-sequence")
+    if case["np_seed"] % 2 == 0:
+        classes.append("output-path-held-an-earlier-result")
     if ndup:
         classes.append("repeated-accession" if case.get("dup") == 1 else "input-entry-with-decoy-prefix")
     return {"nontrivial": rich_prot, "classes": classes, "counters": {"proteins": n, "peptides_checked": npep}}
